@@ -313,8 +313,24 @@ pub fn run(tier: Tier, seed: u64, known: &Known) -> PropRun {
     run
 }
 
-pub fn replay(part: &str, bytes: &[u8], _case: &Value, stats: &mut Stats) -> Verdict {
+pub fn replay(part: &str, bytes: &[u8], case: &Value, stats: &mut Stats) -> Verdict {
     KMAX.with(|c| c.set(3_000_000));
+    // structural replay of an in-process case: (earlier searches, FEN, depth, deadline)
+    if let (Some(fen), Some(d), Some(k)) = (case.get("fen").and_then(|x| x.as_str()), case.get("depth").and_then(|x| x.as_u64()), case.get("deadline_nodes").and_then(|x| x.as_u64())) {
+        if let Some(p) = eng::pos_from_saved_fen(fen) {
+            let mut earlier: Vec<(Pos, u8)> = Vec::new();
+            if let Some(a) = case.get("earlier_searches_on_this_engine").and_then(|x| x.as_array()) {
+                for e in a {
+                    if let (Some(f), Some(dq)) = (e.get("fen").and_then(|x| x.as_str()), e.get("depth").and_then(|x| x.as_u64())) {
+                        if let Ok((q, _, _)) = Pos::from_fen(f) {
+                            earlier.push((q, dq as u8));
+                        }
+                    }
+                }
+            }
+            return judge_after(&earlier, &p, d as u8, k, stats, "replay");
+        }
+    }
     match part {
         "enumerated" => part_enumerated(bytes, stats),
         "blackbox" => part_blackbox(bytes, stats),
